@@ -1,5 +1,146 @@
-import Rtcm.Model.Names
-import Rtcm.Model.Socket
+import Rtcm.Lemmas.Names
+import Rtcm.Model.WF
 import Rtcm.Gen.Tables
+/-
+  C19 — attribute-name helpers handle every name the parser generates.
+  A generated attribute name is `renderName field idx`: the data field's name followed by one
+  `_%02d` per group index (`idx = []` outside groups).
+-/
 namespace Rtcm
+
+abbrev T19 := Rtcm.Gen.tables
+
+/-- the name helper returns the un-indexed field name, for any number of index levels and any
+    number of digits per index -/
+theorem C19_att2name (name : Label) (idx : List Nat) (h : noUnderscore name = true) :
+    att2name (renderName name idx) = name := by
+  simp [att2name, split_renderName name idx h]
+
+theorem parseInt_pad2 (i : Nat) : parseInt (pad2 i) = some (i : Int) := by
+  obtain ⟨h1, h2, h3⟩ := pad2_spec i
+  have := parseInt_digits (pad2 i) h1 (by intro h; rw [h] at h3; simp at h3)
+  rw [this, h2]
+
+/-- one index level: the index helper returns the group index as an integer -/
+theorem C19_att2idx_single (name : Label) (i : Nat) (h : noUnderscore name = true) :
+    att2idx (renderName name [i]) = .int i := by
+  simp [att2idx, split_renderName name [i] h, parseInt_pad2]
+
+theorem allSome_pad2 (l : List Nat) : allSome (l.map fun i => parseInt (pad2 i)) = some (l.map Int.ofNat) := by
+  induction l with
+  | nil => rfl
+  | cons i rest ih =>
+    simp only [List.map_cons, allSome, parseInt_pad2 i]
+    rw [ih]
+    rfl
+
+/-- nested groups: the tuple of indices -/
+theorem C19_att2idx_nested (name : Label) (i j : Nat) (rest : List Nat) (h : noUnderscore name = true) :
+    att2idx (renderName name (i :: j :: rest)) = .tuple ((i :: j :: rest).map Int.ofNat) := by
+  have := allSome_pad2 (i :: j :: rest)
+  simp only [att2idx, split_renderName name (i :: j :: rest) h, List.map_cons]
+  simp only [List.map_cons, List.map_map] at this
+  have e : (List.map (parseInt ∘ pad2) rest) = List.map (fun i => parseInt (pad2 i)) rest := rfl
+  rw [← e] at this
+  simp only [List.map_map]
+  rw [this]
+
+/-- a plain (un-indexed) name without underscore has index 0 -/
+theorem C19_att2idx_plain (name : Label) (h : noUnderscore name = true) : att2idx name = .int 0 := by
+  simp [att2idx, splitUnderscore_noU name h]
+
+/-! ### the description helper on the current tables -/
+
+def nameShapeOk (n : Label) : Bool :=
+  match splitUnderscore n with
+  | [_] => true
+  | [_, s] => s.length == 1
+  | _ => false
+
+/-- every table name is either underscore-free or `<stem>_<one character>` (DF001_7, DF422_1 …) -/
+theorem C19_table_name_shapes : T19.fields.all (fun f => nameShapeOk f.name) = true := by decide +kernel
+
+mutual
+def deepFidsItem (d : Nat) : Item → List Nat
+  | .field fid => if d = 0 then [] else [fid]
+  | .group _ body => deepFidsItems (d + 1) body
+  | .opt _ _ body => deepFidsItems d body
+  | .malformed _ => []
+def deepFidsItems (d : Nat) : List Item → List Nat
+  | [] => []
+  | it :: rest => deepFidsItem d it ++ deepFidsItems d rest
+end
+
+/-- the field names that contain an underscore occur only outside groups, i.e. never indexed -/
+theorem C19_underscored_only_toplevel :
+    ∀ e ∈ T19.std ++ T19.msm ++ T19.igs,
+      (deepFidsItems 0 e.2).all (fun fid => noUnderscore (T19.fieldName fid)) = true := by
+  decide +kernel
+
+/-- no table name equals an indexed rendering of an underscore-free name -/
+theorem rendered_ne_table_name (n name : Label) (i : Nat) (rest : List Nat)
+    (hs : nameShapeOk n = true) (h : noUnderscore name = true) : n ≠ renderName name (i :: rest) := by
+  intro he
+  subst he
+  unfold nameShapeOk at hs
+  rw [split_renderName name (i :: rest) h] at hs
+  simp only [List.map_cons] at hs
+  have := (pad2_spec i).2.2
+  cases hr : rest.map pad2 with
+  | nil => simp [hr] at hs; omega
+  | cons a b => simp [hr] at hs
+
+theorem findIdx_none_of_all_ne (l : List FieldSpec) (r : Label) (h : ∀ f ∈ l, f.name ≠ r) :
+    l.findIdx? (fun f => f.name = r) = none := by
+  rw [List.findIdx?_eq_none_iff]
+  intro f hf
+  simp [h f hf]
+
+theorem findIdx_name (l : List FieldSpec) (i : Nat) (f : FieldSpec) (h : l[i]? = some f) :
+    ∃ j g, l.findIdx? (fun g => g.name = f.name) = some j ∧ l[j]? = some g ∧ g.name = f.name := by
+  induction l generalizing i with
+  | nil => simp at h
+  | cons a rest ih =>
+    by_cases ha : a.name = f.name
+    · exact ⟨0, a, by simp [List.findIdx?_cons, ha], by simp, ha⟩
+    · cases i with
+      | zero => simp at h; subst h; exact absurd rfl ha
+      | succ i =>
+        simp at h
+        obtain ⟨j, g, h1, h2, h3⟩ := ih i h
+        refine ⟨j + 1, g, ?_, by simpa using h2, h3⟩
+        simp [List.findIdx?_cons, ha, h1]
+
+/-- For every data field and every attribute name generated from it — plain, or indexed with any
+    number of levels when the field name has no underscore — the description helper returns the
+    description of the data field of that name (`datadesc` = index of the table entry used). -/
+theorem C19_datadesc (fid : Nat) (f : FieldSpec) (hf : T19.fields[fid]? = some f) :
+    (∃ j g, datadesc T19 f.name = some j ∧ T19.fields[j]? = some g ∧ g.name = f.name)
+    ∧ (noUnderscore f.name = true → ∀ idx,
+        ∃ j g, datadesc T19 (renderName f.name idx) = some j ∧ T19.fields[j]? = some g ∧ g.name = f.name) := by
+  obtain ⟨j, g, h1, h2, h3⟩ := findIdx_name T19.fields fid f hf
+  have hplain : datadesc T19 f.name = some j := by
+    simp only [datadesc, fidOfName, h1]
+  refine ⟨⟨j, g, hplain, h2, h3⟩, fun hno idx => ?_⟩
+  cases idx with
+  | nil => exact ⟨j, g, by simpa [renderName] using hplain, h2, h3⟩
+  | cons i rest =>
+    refine ⟨j, g, ?_, h2, h3⟩
+    unfold datadesc
+    have hnone : fidOfName T19 (renderName f.name (i :: rest)) = none := by
+      unfold fidOfName
+      apply findIdx_none_of_all_ne
+      intro g hg
+      have hs := C19_table_name_shapes
+      rw [List.all_eq_true] at hs
+      exact rendered_ne_table_name g.name f.name i rest (hs g hg) hno
+    rw [hnone, C19_att2name f.name (i :: rest) hno]
+    simp only [fidOfName, h1]
+
+/-- non-vacuity: DF406_103, IDF039_01_136 and the plain DF001_7 -/
+example : att2idx (renderName (strL "DF406") [103]) = .int 103 := by decide +kernel
+example : att2idx (renderName (strL "IDF039") [1, 136]) = .tuple [1, 136] := by decide +kernel
+example : datadesc T19 (strL "DF001_7") = fidOfName T19 (strL "DF001_7") ∧ (fidOfName T19 (strL "DF001_7")).isSome = true := by
+  decide +kernel
+
 end Rtcm
